@@ -674,3 +674,118 @@ def register(reg, prog):
                  at_exit=sm_exit, modifies=[REC, ACT, BL, PB, '*lists', 'self.message_id', 'field:mtype', 'field:mid', 'field:no_response'],
                  ensures={'invariant-kept': 'mm_inv_sd(self)',
                           'running-stays-running': 'implies(old(self._active_exchanges is not None), mm_inv(self))'})
+
+    # ---- dispatch_error (transport error for an endpoint) and shutdown
+    ACTT = F['_active_exchanges'][1]
+    KS = sort_of(ACTT[1])
+
+    def act_now(ex, st, mm):
+        return dicts(ex, st, mm)[1].some()
+
+    def in_list(ex, st, lst, kterm, upto=None, frm=None):
+        j = z3.Int(fresh_name('ij'))
+        n = ex.list_len(st, lst) if upto is None else upto
+        lo = z3.IntVal(0) if frm is None else frm
+        return z3.Exists([j], z3.And(lo <= j, j < n, z3.Select(ex.list_arr(st, lst), j) == kterm))
+
+    def de_inv0(ctx):
+        """collecting loop: the list holds exactly the visited keys of that endpoint, each once; the dict is untouched"""
+        ex, st, env = ctx.ex, ctx.st, ctx.env
+        mm, lst, done = env['self'], env['keys_for_removal'], env['_done'].t
+        if getattr(lst, 'pending', False):
+            return z3.BoolVal(True)
+        act, act0 = act_now(ex, st, mm), act_now(ex, ctx.old_st, mm)
+        rem = coerce(env['remote'], ACTT[1][1][0]).t
+        k = z3.Const(fresh_name('dk'), KS)
+        j, j2 = z3.Int(fresh_name('dj')), z3.Int(fresh_name('dj2'))
+        n = ex.list_len(st, lst)
+        arr = ex.list_arr(st, lst)
+        r = lambda kk: KS.accessor(0, 0)(kk)
+        with quantified(ex):
+            a = z3.ForAll([k], z3.Implies(z3.And(z3.Select(done, k), z3.Select(ex.dict_dom(st, act), k), r(k) == rem), in_list(ex, st, lst, k)))
+            b = z3.ForAll([j], z3.Implies(z3.And(0 <= j, j < n), z3.And(z3.Select(done, z3.Select(arr, j)), z3.Select(ex.dict_dom(st, act), z3.Select(arr, j)), r(z3.Select(arr, j)) == rem)))
+            c = z3.ForAll([j, j2], z3.Implies(z3.And(0 <= j, j < j2, j2 < n), z3.Select(arr, j) != z3.Select(arr, j2)))
+        same = dict_frame(ex, st, ctx.old_st, mm, F, '_active_exchanges')
+        return z3.And(a, b, c, same, n >= 0)
+
+    def de_inv1(ctx):
+        """removing loop: exactly the first _i listed keys are gone"""
+        ex, st, env = ctx.ex, ctx.st, ctx.env
+        mm, lst, i = env['self'], env['keys_for_removal'], env['_i'].t
+        act, act0 = act_now(ex, st, mm), act_now(ex, ctx.old_st, mm)
+        rem = coerce(env['remote'], ACTT[1][1][0]).t
+        k = z3.Const(fresh_name('dk'), KS)
+        j, j2 = z3.Int(fresh_name('dj')), z3.Int(fresh_name('dj2'))
+        n = ex.list_len(st, lst)
+        arr = ex.list_arr(st, lst)
+        r = lambda kk: KS.accessor(0, 0)(kk)
+        with quantified(ex):
+            a = z3.ForAll([k], z3.Select(ex.dict_dom(st, act), k) == z3.And(z3.Select(ex.dict_dom(ctx.old_st, act0), k), z3.Not(in_list(ex, st, lst, k, upto=i))))
+            b = z3.ForAll([j], z3.Implies(z3.And(0 <= j, j < n), z3.And(z3.Select(ex.dict_dom(ctx.old_st, act0), z3.Select(arr, j)), r(z3.Select(arr, j)) == rem)))
+            c = z3.ForAll([j, j2], z3.Implies(z3.And(0 <= j, j < j2, j2 < n), z3.Select(arr, j) != z3.Select(arr, j2)))
+            d = z3.ForAll([k], z3.Implies(z3.And(z3.Select(ex.dict_dom(ctx.old_st, act0), k), r(k) == rem), in_list(ex, st, lst, k)))
+            v = z3.ForAll([k], z3.Implies(z3.Select(ex.dict_dom(st, act), k), z3.Select(ex.dict_vals(st, act), k) == z3.Select(ex.dict_vals(ctx.old_st, act0), k)))
+        return z3.And(a, b, c, d, v, act.t == act0.t)
+
+    def de_exit(ex, s, entry, env, result):
+        ev = Ev(ex, s, entry, env)
+        down = ev('old(self._active_exchanges is None)')
+        errs, cancels = evs(s, 'tm_dispatch_error'), evs(s, 'cancel')
+        g = [('after-shutdown-nothing-happens', z3.Implies(down, B(len(s.log) == 0))),
+             ('requests-of-the-endpoint-are-failed-once', z3.Implies(z3.Not(down), B(len(errs) == 1)))]
+        for e in errs:
+            g.append(('same-error-and-endpoint', z3.And(e[2].t == env['error'].t, ev('r is remote', r=e[3]))))
+            g.append(('requests-failed-before-exchanges-end', B(s.log.index(e) == 0)))
+        g.append(('no-exchange-left-for-the-endpoint', z3.Implies(z3.Not(down), ev('not exists_active(self, remote)'))))
+        g.append(('backlog-dropped', z3.Implies(z3.Not(down), ev('remote not in self._backlogs'))))
+        return g
+
+    def de_lemmas(ex, s, entry, env, result):
+        if ex.truth(s, ex.spec_val(s, 'old(self._active_exchanges is None)', env=env, old_st=entry)).eq(z3.BoolVal(True)):
+            return []
+        mm = env['self']
+        act_o = dicts(ex, entry, mm)[1]
+        act_n = dicts(ex, s, mm)[1]
+        down = act_o.is_none()
+        act, act0 = act_n.some(), act_o.some()
+        rem = coerce(env['remote'], ACTT[1][1][0]).t
+        k = z3.Const(fresh_name('lk'), KS)
+        r = lambda kk: KS.accessor(0, 0)(kk)
+        bl, bl0 = dicts(ex, s, mm)[2], dicts(ex, entry, mm)[2]
+        rr = z3.Const(fresh_name('lr'), sort_of(bl.k))
+        with quantified(ex):
+            a = z3.ForAll([k], z3.Select(ex.dict_dom(s, act), k) == z3.And(z3.Select(ex.dict_dom(entry, act0), k), r(k) != rem))
+            v = z3.ForAll([k], z3.Implies(z3.Select(ex.dict_dom(s, act), k), z3.Select(ex.dict_vals(s, act), k) == z3.Select(ex.dict_vals(entry, act0), k)))
+            b = z3.ForAll([rr], z3.Select(ex.dict_dom(s, bl), rr) == z3.And(z3.Select(ex.dict_dom(entry, bl0), rr), rr != rem))
+            bv = z3.ForAll([rr], z3.Implies(rr != rem, z3.Select(ex.dict_vals(s, bl), rr) == z3.Select(ex.dict_vals(entry, bl0), rr)))
+        return [('exchanges-minus-endpoint', z3.Implies(z3.Not(down), z3.And(a, v))),
+                ('backlogs-minus-endpoint', z3.Implies(z3.Not(down), z3.And(b, bv)))]
+
+    reg.contract(MM + '.dispatch_error', params={'error': Ref('builtins:Exception'), 'remote': Opt(Ref('Remote'))}, properties=['C14', 'C18', 'C02'],
+                 exit_lemmas=de_lemmas,
+                 requires=['mm_inv_sd(self)', 'remote is not None'], only_raises=True, modifies=[ACT, BL],
+                 invariants={0: [de_inv0], 1: [de_inv1]}, at_exit=de_exit,
+                 ensures={'invariant-kept': 'mm_inv_sd(self)',
+                          'other-backlogs-untouched': frame('_backlogs', 'remote')})
+
+    reg.externals['MessageInterface.shutdown'] = lambda ex, st, args, kw, node: (st.log.append(('mi_shutdown', args[0])), [(st, VNone())])[1]
+
+    def sd_step(ex, s, snap):
+        evs_ = s.log[len(snap.log):]
+        g = [('one-cancel-per-exchange', B(len(evs_) == 1 and evs_[0][0] == 'cancel'))]
+        for e in evs_:
+            if e[0] == 'cancel':
+                g.append(('cancels-this-exchange-timer', ex.truth(s, ex.spec_val(s, 'h is cancellable', env=dict(ex.visible_env(s), h=e[1])))))
+        return g
+
+    def sd_at_await(ex, s, entry, env):
+        ev = Ev(ex, s, entry, env)
+        return [('exchanges-dropped-before-transport-shutdown', ev('self._active_exchanges is None')),
+                ('no-monitor-called', B(not evs(s, 'call'))),
+                ('nothing-transmitted', B(not evs(s, 'wire', 'send_initially'))),
+                ('invariant-after-shutdown', ev('mm_inv_sd(self)'))]
+
+    reg.contract(MM + '.shutdown', properties=['C18'], requires=['mm_inv(self)'],
+                 raises={'CancelledError': MAY}, only_raises=True,
+                 loop_steps={0: [sd_step]},
+                 awaits={0: {'check': sd_at_await, 'havoc': True}}, modifies=['*'])
